@@ -132,7 +132,8 @@ def _c02(tier, seed):
 
 
 def _c03(tier, seed):
-    return p_family("undo", tier, seed)
+    return ["h_unit::c03_undo_after_phase_update_d4", "h_unit::c03_undo_after_phase_update_e1",
+            "h_filter::c01_filter_checked_d4"] + p_family("undo", tier, seed)
 
 
 def _c04(tier, seed):
@@ -181,8 +182,8 @@ PROPS = {
     "C02": dict(select=_c02, witnesses=P_WITNESSES, timeout=900,
                 functions=["chess::Game::push", "chess::Game::set_position", "chess::gamestate::GameState setters", "chess::piece::Piece::{hash,score}"],
                 bounds=P_BOUNDS, assumptions=P_ASSUME, native_replay=True),
-    "C03": dict(select=_c03, witnesses=P_WITNESSES, timeout=900,
-                functions=["chess::Game::push", "chess::Game::pop", "chess::Game::set_position"],
+    "C03": dict(select=_c03, witnesses=P_WITNESSES + ["h_filter::c01_filter_witness"], timeout=1800, tag="[C03]", stubbed_prefixes=["h_filter::c01_filter"],
+                functions=["chess::Game::push", "chess::Game::pop", "chess::Game::set_position", "chess::Game::update_phase (+ is_endgame)", "chess::Game::get_moves (queries leave nothing played: filter harness with stubbed callees)"],
                 bounds=P_BOUNDS, assumptions=P_ASSUME, native_replay=True),
     "C04": dict(select=_c04, witnesses=P_WITNESSES, timeout=900,
                 functions=["chess::Game::push", "chess::Game::set_position", "chess::piece::Piece::hash", "chess::piece::Piece::as_index", "chess::gamestate::GameState::hash", "chess::zobrist::{PIECE,STATE,EMPTY_PLACE,BLACK_TO_MOVE}"],
@@ -242,6 +243,46 @@ PROPS["C05"] = dict(select=_c05, witnesses=["h_unit::unit_witness"], timeout=900
                     native_replay=True)
 
 
+S = "h_search::"
+NODE = [S + x for x in ["c09_node_k1", "c09_node_k2", "c09_node_k3", "c09_node_k4", "c09_node_k5", "c09_node_k4_killer3", "c09_node_k4_killer1"]]
+DEPTH1 = [S + x for x in ["c09_depth1_k1", "c09_depth1_k2", "c09_depth1_k3", "c09_depth1_k5"]]
+QUIES = [S + x for x in ["c09_quiescence_1_1", "c09_quiescence_2_2", "c09_quiescence_3_2", "c09_quiescence_3_3"]]
+ENTRY = [S + x for x in ["c06_entry_k0", "c06_entry_k0_cached", "c06_entry_k1", "c06_entry_k1_cached", "c06_entry_k2", "c06_entry_k2_rep",
+                         "c06_entry_k3_cached1", "c06_entry_k4", "c06_entry_k4_cached3", "c06_entry_k4_rep", "c06_entry_k4_rep_cached1",
+                         "c06_entry_k4_rep_other", "c06_entry_k5"]]
+DRIVER = [S + x for x in ["c08_driver_limit1_fresh", "c08_driver_limit2_fresh", "c08_driver_limit3_fresh", "c08_driver_limit2_cached",
+                          "c08_driver_unlimited_fresh", "c08_driver_unlimited_cached", "c06_driver_no_moves", "c06_driver_single_reply"]]
+NOMOVES = [S + x for x in ["c10_no_moves_node", "c10_depth1_no_moves", "c10_no_moves_quiescence"]]
+S_WITNESS = [S + x for x in ["c09_node_witness", "c09_depth1_witness", "c09_quiescence_witness", "c06_entry_witness", "c08_driver_witness"]]
+
+SEARCH_ASSUME = [
+    "abstract game: Game::{get_moves,push,pop,hash,score,player,king_exists,is_targeted} are Kani stubs presenting a tree of at most 5 moves per node (concrete distinct Move values, node = path of move indices, hash = distinct constant per node); Move::uci_notation is stubbed in the driver harness",
+    "the callee one ply below the function under test is a stub returning ANY value allowed by spec::ab_contract for the child's symbolic true value (|value| <= 30000: mate range excluded as in the property), or `stopped` from an arbitrary call on",
+    "ordering keys are concrete per instance (std's sort on symbolic keys is intractable): history all zero, killer move / cached move = a fixed child per instance",
+    "table: empty, or holding only entries for the positions on the walked line, each satisfying the table invariant T (cached move is a move of that position) which the node/root harnesses re-establish; equal hash => equal position is assumed (C05 covers what can be decided of it)",
+    "composition over plies (induction on depth) and from abstract moves to real chess moves (C01) is argued in DESIGN.md, not solved",
+]
+SEARCH_BOUNDS = "one function, one ply per harness; branching <= 5 (<= 3 in the capture search, capture chains <= 2); all windows alpha <= beta, all child values in [-30000, 30000], any distance from root < 30 (interior) / < 200 (leaves), any requested depth 1..255, depth limits 1..3 and unlimited (observed for 3 iterations); unwind 9 with unwinding assertions"
+SYS = {
+    "[C07] stop before the first iteration": "c07_stop_before_first_iteration",
+    "[C08] the driver searches deeper than the depth limit": "c08_limit_below_cached_depth",
+    "[C08] the per-ply killer table is shorter": "c08_unlimited_tiny_position",
+}
+
+
+def _search_prop(pid, harnesses, functions):
+    PROPS[pid] = dict(select=lambda tier, seed, hs=harnesses: list(hs), witnesses=S_WITNESS, timeout=2500, tag="[%s]" % pid,
+                      stubbed_prefixes=[S], sys_replays=SYS, functions=functions, bounds=SEARCH_BOUNDS, assumptions=SEARCH_ASSUME, native_replay=True)
+
+
+_search_prop("C06", ENTRY + DRIVER + NODE[:4], ["search::get_best_move_entry", "search::get_best_move_until_stop", "search::get_best_move_score (table entry it leaves)"])
+_search_prop("C07", ENTRY + DRIVER + NODE[:2], ["search::get_best_move_entry (`?` propagation)", "search::get_best_move_until_stop", "search::get_best_move_score"])
+_search_prop("C08", DRIVER + ENTRY[4:8], ["search::get_best_move_until_stop", "search::get_best_move_entry (killer table it allocates)"])
+_search_prop("C09", NODE + DEPTH1 + QUIES + ENTRY[4:], ["search::get_best_move_score", "search::get_best_move_score_depth_1", "search::quiescence_search", "search::get_best_move_entry", "search::move_score (through the sort)", "Move::{is_tactical_move,index_history}"])
+_search_prop("C10", NOMOVES + DRIVER + ENTRY[:2], ["search::get_best_move_score (no-move rule)", "search::get_best_move_score_depth_1 (no-move rule)", "search::quiescence_search (no-move rule)", "search::get_best_move_until_stop (stop on mate score)", "search::get_best_move_entry (root without moves)"])
+_search_prop("C18", DRIVER, ["search::get_best_move_until_stop (line reconstruction)"])
+
+
 def _c13(tier, seed):
     from mirsmt import c13
     return c13.run(tier, seed, common)
@@ -297,6 +338,17 @@ def run_property(prop, tier, seed):
         if r.status == "undecided":
             undecided.append(h)
             continue
+        tag = cfg.get("tag")
+        if tag:
+            # a shared harness carries assertions of several properties: only this property's
+            # assertions and untagged failures (panics, bounds, overflow in the real code) count here
+            import re as _re
+            mine = [c for c in r.failed_checks if tag in c["description"] or not _re.search(r"\[C\d\d\]", c["description"])]
+            if not mine:
+                r.status = "success"
+                r.reason = "failed checks belong to other properties: " + "; ".join(c["description"] for c in r.failed_checks[:3])
+                continue
+            r.failed_checks = mine
         descs = [c["description"] for c in r.failed_checks]
         kf = common.match_known(prop, h, descs)
         if kf:
@@ -321,6 +373,12 @@ def run_property(prop, tier, seed):
                 rep, detail = common.native_replay(h, vecs, profile)
                 native[profile] = {"reproduced": rep, "detail": detail}
             reproduced = bool(native["dev"]["reproduced"]) or bool(native["release"]["reproduced"])
+        if stubbed and cfg.get("sys_replays"):
+            # a finding on a function with stubbed callees is confirmed on the whole real engine
+            for frag, name in cfg["sys_replays"].items():
+                if any(frag in c["description"] for c in r.failed_checks):
+                    rep, detail = common.sys_replay(name)
+                    native["system:" + name] = {"reproduced": rep, "detail": detail}
         path = common.save_replay(prop, h, r.failed_checks, vecs, src, native)
         if reproduced or (vecs is not None and (stubbed or not cfg.get("native_replay", False))):
             confirmed.append((h, path))
